@@ -20,13 +20,16 @@ EXPLANATION = (
     "rules (disabled => no effect; defuzzifier call before every write; previous value captured from the old value "
     "before the commit; lock-previous block before default block before commit), abstract interpretation of the "
     "NaN fill loop and of the range-locking setter under all assignments of their guards, origin rules for the "
-    "filler seed, the default substitution and the clipping bounds; who-may-write: only the value setter assigns the backing field _value"
+    "filler seed, the default substitution and the clipping bounds; who-may-write: only the value setter assigns the backing field _value; O-sem - "
+    "defuzzify together with the value setter interpreted abstractly (sa/absexec.py) on arrays of abstract elements (NaN or symbols) for every "
+    "two-call sequence of failing / scalar / batch results under all 16 settings: value, previous value, untouched state on disabled or failing "
+    "calls exactly as specified (undecided, not an error, when the code leaves the array model)"
 )
 ASSUMPTIONS = [
     "numpy.nditer(readwrite) iterates the result in row order; numpy.clip(x, lo, hi) clips to [lo, hi]",
     "the defuzzifier returns a fresh value (checked for the in-package defuzzifiers by C02/V2 and C13/OWN)",
 ]
-FLOORS = {"O1": 1, "O2": 1, "O3": 2, "O4": 3, "O5": 3, "O6": 3, "O8": 3}
+FLOORS = {"O-sem": 1, "O1": 1, "O2": 1, "O3": 2, "O4": 3, "O5": 3, "O6": 3, "O8": 3}
 
 SELF = ("param", "self")
 
@@ -38,6 +41,13 @@ def run(check: Check) -> None:
     from .common import who_may_write
 
     who_may_write(check, "O6", "_value", {"Variable.value.setter"}, "every other write skips the range lock of the setter")
+    # the structural rules above decide the necessary conditions on every shape of the code; O-sem adds the decision of the whole
+    # cascade where the code stays within the array model of the interpreter - outside it the clause is undecided, not an error
+    try:
+        cascade_semantics(check)
+    except AnalysisError as ex:
+        check.notes.append(f"O-sem undecided: {ex}")
+        check.ok("O-sem", "OutputVariable.defuzzify/undecided", f"the cascade as a whole is outside the array model of the interpreter ({ex}); decided by O1-O8 only")
 
 
 def cascade(check: Check) -> None:
@@ -337,3 +347,220 @@ def clear(check: Check) -> None:
     check.require(fuzzy_cleared and uncond, "O8", "OutputVariable.clear/fuzzy", "clear() empties the fuzzy output", loc(fn))
     check.require(last_is_nan(["previous_value"]), "O8", "OutputVariable.clear/previous", "clear() resets previous_value to NaN", loc(fn))
     check.require(last_is_nan(["value", "_value"]), "O8", "OutputVariable.clear/value", "clear() resets value to NaN", loc(fn))
+
+
+# ------------------------------------------------------------------------------------------------ O-sem
+def cascade_semantics(check: Check) -> None:
+    """O-sem [E up to the bound]: `OutputVariable.defuzzify` (with the `value` property setter it commits through) is interpreted
+    abstractly (sa/absexec.py) on arrays of abstract elements - NaN or distinct symbols - for every sequence of two calls drawn from
+    {a failing defuzzifier, the batches [nan], [a], [nan, a], [a, nan, nan], [nan, nan]}, from the cleared state, under all 16 settings
+    of enabled x lock-previous x default (NaN / set) x lock-range. After every call value and previous value must be those of the
+    statement: the defuzzified rows, NaN rows replaced by the most recent value when lock-previous is on (previous row of the batch,
+    else the last value held before the call), then by the default when one is set, then clipped when lock-range is on; the
+    previous value is the last value held before the call; a disabled variable and a failing defuzzifier leave everything as it was
+    (and the failure reaches the caller)."""
+    import itertools
+
+    from ..absexec import AbsExec, Internal, MObj, Opaque, Raised, Unknown, _Return
+
+    p = check.program
+    fn = p.func("OutputVariable.defuzzify")
+    check.analysed(fn)
+    cls_var = p.cls("Variable")
+    getter, setter = cls_var.lookup_getter("value"), cls_var.lookup_setter("value")
+    if getter is None or setter is None:
+        raise AnalysisError("anchor vanished: Variable.value property")
+    check.analysed(setter)
+    node = fn.analysis_node
+    NAN = "nan"
+
+    class Arr:
+        """An array of abstract elements (0-d when `zero_d`)."""
+
+        def __init__(self, items: list, zero_d: bool = False):
+            self.items = list(items)
+            self.zero_d = zero_d
+
+        def __repr__(self) -> str:
+            return (str(self.items[0]) if self.zero_d else str(self.items))
+
+    class Ref:
+        def __init__(self, arr: Arr, i: int):
+            self.arr, self.i = arr, i
+
+    def elems(v):  # type: ignore[no-untyped-def]
+        if isinstance(v, Arr):
+            return list(v.items)
+        if isinstance(v, Ref):
+            return [v.arr.items[v.i]]
+        return [v]
+
+    def as_arr(v) -> Arr:  # type: ignore[no-untyped-def]
+        if isinstance(v, Arr):
+            return v
+        if isinstance(v, Ref):
+            return Arr([v.arr.items[v.i]], True)
+        return Arr([v], True)
+
+    def np_call(name: str):
+        def f(ex_, e, recv, args, kw):
+            if name in ("asarray", "array", "atleast_1d", "scalar", "asanyarray"):
+                return as_arr(args[0])
+            if name == "take":
+                a = as_arr(args[0])
+                return Arr([a.items[args[1]]], True)
+            if name in ("astype", "copy", "squeeze"):
+                return Arr(list(recv.items), recv.zero_d) if isinstance(recv, Arr) else recv
+            if name == "isnan":
+                v = args[0]
+                if isinstance(v, Arr) and not v.zero_d:
+                    return Arr([x == NAN for x in v.items])
+                return elems(v)[0] == NAN
+            if name == "isfinite":
+                v = args[0]
+                if isinstance(v, Arr) and not v.zero_d:
+                    return Arr([x != NAN for x in v.items])
+                return elems(v)[0] != NAN
+            if name == "nditer":
+                return ("nditer", as_arr(args[0]))
+            if name == "clip":
+                a = as_arr(args[0])
+                return Arr([x if x == NAN else ("clip", x) for x in a.items], a.zero_d)
+            if name == "where" and len(args) == 3:
+                m, a, b = as_arr(args[0]), as_arr(args[1]), as_arr(args[2])
+                n_ = max(len(m.items), len(a.items), len(b.items))
+                pick = lambda arr, i: arr.items[i if len(arr.items) > 1 else 0]  # noqa: E731
+                return Arr([pick(a, i) if pick(m, i) else pick(b, i) for i in range(n_)], n_ == 1 and m.zero_d and a.zero_d and b.zero_d)
+            if name == "full_like":
+                a = as_arr(args[0])
+                return Arr([elems(args[1])[0]] * len(a.items), a.zero_d)
+            raise Unknown(f"{fn.qualname}: numpy.{name} is outside the model of the cascade")
+        return f
+
+    def setitem(ex_, e, base, idx, v):
+        val = elems(v)
+        if isinstance(base, Ref):
+            base.arr.items[base.i] = val[0]
+            return
+        if isinstance(base, Arr) and isinstance(idx, Arr):  # boolean mask
+            for i, m in enumerate(idx.items if len(idx.items) == len(base.items) else idx.items * len(base.items)):
+                if m:
+                    base.items[i] = val[0] if len(val) == 1 else val[i]
+            return
+        if isinstance(base, Arr) and isinstance(idx, bool):  # 0-d array indexed with a 0-d boolean
+            if idx:
+                base.items[:] = [val[0]] * len(base.items)
+            return
+        if isinstance(base, Arr) and idx is Ellipsis:
+            base.items[:] = val * len(base.items) if len(val) == 1 else val
+            return
+        raise Unknown(f"{fn.qualname}: this element assignment is outside the model of the cascade")
+
+    def enter(ex_, e, ctx):
+        return ctx
+
+    batches = [None, (NAN,), ("a",), (NAN, "a"), ("a", NAN, NAN), (NAN, NAN)]
+    bad: dict[str, str] = {}
+    cases = 0
+
+    def expected(state, batch, cfg):
+        value, prev = state
+        enabled, lockp, default, lockr = cfg
+        if not enabled:
+            return state, None
+        if batch is None:
+            return state, "ValueError"
+        last = value[-1]
+        out = []
+        filler = last
+        for d in batch:
+            if lockp:
+                if d == NAN:
+                    out.append(filler)
+                else:
+                    out.append(d)
+                    filler = d
+            else:
+                out.append(d)
+        if default != NAN:
+            out = [default if x == NAN else x for x in out]
+        if lockr:
+            out = [x if x == NAN else ("clip", x) for x in out]
+        return (out, last), None
+
+    try:
+        for enabled, lockp, default, lockr in itertools.product((True, False), (True, False), (NAN, "dflt"), (True, False)):
+            cfg = (enabled, lockp, default, lockr)
+            for seq in itertools.product(batches, repeat=2):
+                cases += 1
+                obj = MObj("OutputVariable", {"enabled": enabled, "lock_previous": lockp, "default_value": default, "lock_range": lockr, "minimum": "lo", "maximum": "hi",
+                                              "name": Opaque("name"), "fuzzy": MObj("Aggregated", {"terms": ["activation"]}), "previous_value": NAN,
+                                              "_value": Arr([NAN], True)})
+                state = ([NAN], NAN)
+                script: list = []
+
+                def defuzzify(ex_, e, recv, args, kw, script=script):
+                    b = script[0]
+                    if b is None:
+                        raise Raised("ValueError", e)
+                    return Arr(list(b), False) if len(b) > 1 else Arr(list(b), True)
+
+                obj.fields["defuzzifier"] = MObj("Defuzzifier", {})
+                hooks = {"method:defuzzify": defuzzify, "setitem": setitem, "enter": enter, "scalar": lambda ex_, e, args, kw: as_arr(args[0]),
+                         "array": lambda ex_, e, args, kw: as_arr(args[0])}
+                for nm in ("asarray", "array", "atleast_1d", "asanyarray", "take", "astype", "copy", "squeeze", "isnan", "isfinite", "nditer", "clip", "where", "full_like"):
+                    hooks[f"method:{nm}"] = np_call(nm)
+                ex = AbsExec(fn.qualname, hooks, helpers={k: v for k, v in fn.cls.methods.items() if k.startswith("_") and not k.startswith("__")})
+                ex.properties[("OutputVariable", "value")] = (getter, setter)
+                ex.iterate_hook = lambda v: [Ref(v[1], i) for i in range(len(v[1].items))] if isinstance(v, tuple) and v and v[0] == "nditer" else None  # type: ignore[attr-defined]
+                k = 0
+                names = iter("abcdefgh")
+                for batch in seq:
+                    k += 1
+                    b = None if batch is None else tuple(x if x == NAN else f"{next(names)}{k}" for x in batch)
+                    script[:] = [b]
+                    env = {"self": obj, "np": Opaque("np"), "nan": NAN}
+                    pv0 = obj.fields["previous_value"]
+                    before = (list(obj.fields["_value"].items), pv0.items[0] if isinstance(pv0, Arr) else pv0, list(obj.fields["fuzzy"].fields["terms"]))
+                    try:
+                        ex.block(list(node.body), env)
+                        outcome = None
+                    except _Return:
+                        outcome = None
+                    except Raised as r_:
+                        outcome = r_.cls
+                    except Internal as i_:
+                        outcome = f"internal {i_.cls} ({i_.why})"
+                    state, want_exc = expected(state, b, cfg)
+                    what = (f"enabled={enabled}, lock-previous={lockp}, default={'set' if default != NAN else 'nan'}, lock-range={lockr}; call {k} of "
+                            f"{[('fails' if x is None else list(x)) for x in seq]}")
+                    got_v = list(obj.fields["_value"].items) if isinstance(obj.fields["_value"], Arr) else [obj.fields["_value"]]
+                    pv = obj.fields["previous_value"]
+                    got_p = pv.items[0] if isinstance(pv, Arr) else pv
+                    if outcome != want_exc:
+                        bad.setdefault("failure" if want_exc or (outcome or "").startswith("ValueError") else "internal",
+                                       f"{what}: " + (f"raises {outcome}" if outcome else "completes") + ", specified " + (f"to raise {want_exc}" if want_exc else "to complete"))
+                        break
+                    if not enabled or want_exc:
+                        now = (got_v, got_p, list(obj.fields["fuzzy"].fields["terms"]))
+                        if now != (before[0], before[1], before[2]):
+                            bad.setdefault("untouched", f"{what}: value / previous value / fuzzy output change although the variable is disabled or the defuzzifier failed "
+                                           f"({before[:2]} -> {now[:2]})")
+                        continue
+                    if got_v != state[0]:
+                        kind = "lock-previous" if lockp and NAN in (b or ()) else ("default" if default != NAN and NAN in (b or ()) else ("lock-range" if lockr else "value"))
+                        bad.setdefault(kind, f"{what}: the value becomes {got_v}, specified {state[0]}")
+                    if got_p != state[1]:
+                        bad.setdefault("previous", f"{what}: previous value is {got_p}, specified {state[1]} (the last value held before the call)")
+    except Unknown as u:
+        raise AnalysisError(str(u)) from None
+
+    def verdict(construct: str, kinds: list[str], ok_text: str) -> None:
+        hits = [bad[k_] for k_ in kinds if k_ in bad]
+        check.require(not hits, "O-sem", f"OutputVariable.defuzzify/{construct}", ok_text if not hits else hits[0], loc(fn), {"cases": cases}, exhaustive=True, cases=cases)
+
+    verdict("cascade", ["value", "lock-previous", "default", "lock-range"],
+            f"value = defuzzified rows, NaN -> most recent value (lock-previous) -> default -> clipped (lock-range), over {cases} two-call sequences x settings")
+    verdict("previous-value", ["previous"], "the recorded previous value is the last value held before the call")
+    verdict("atomicity", ["untouched", "failure", "internal"], "a disabled variable and a failing defuzzifier leave value, previous value and fuzzy output unchanged; the failure "
+            "reaches the caller")
